@@ -524,6 +524,10 @@ def truth(test, assign):
         known = [x for x in test[1] if not (isinstance(x, tuple) and x[:1] == ("star",))]
         return True if known else (False if not test[1] else None)
     if h == "cmp":
+        if test[1] in ("Is", "Eq") and (test[2] == ("k", None)) != (test[3] == ("k", None)):
+            other = test[3] if test[2] == ("k", None) else test[2]
+            if isinstance(other, (Lin, S)) or (isinstance(other, tuple) and other[:1] in (("obj",), ("tuple",), ("dict",), ("func",), ("lambda",), ("closure",), ("range",))):
+                return False            # a number, a string, a record, a list, a function is not None
         if not isinstance(test[2], (Lin,)) and not isinstance(test[3], (Lin,)):
             if test[2] == test[3] and test[1] in ("Eq", "NotEq", "Is", "IsNot"):
                 return test[1] in ("Eq", "Is")
@@ -1463,7 +1467,8 @@ class Engine:
                 v = None
             finally:
                 self.locals = saved
-            if isinstance(v, (S, Lin)) or _is_k(v) or (isinstance(v, tuple) and v and v[0] in ("tuple", "dict")):
+            if isinstance(v, (S, Lin)) or _is_k(v) or (isinstance(v, tuple) and v and v[0] in ("tuple", "dict")) \
+                    or (isinstance(v, tuple) and v[:1] == ("obj",) and not self._rebound_attrs(name)):
                 self._modconst[name] = v
         return self._modconst[name]
 
@@ -1504,6 +1509,11 @@ class Engine:
         if isinstance(v, (Lin, S)) or _is_k(v):
             cache[d] = v
         return cache[d]
+
+    def _rebound_attrs(self, name):
+        """an attribute of the module-level object `name` is assigned somewhere in the module (then the object is not the constant its constructor made)"""
+        return any(isinstance(n, ast.Attribute) and isinstance(n.ctx, (ast.Store, ast.Del)) and isinstance(n.value, ast.Name) and n.value.id == name
+                   for n in ast.walk(self.mod.tree))
 
     # ------------------------------------------------------------------------------------------------------------ events
     def emit(self, st, kind, node, **d):
@@ -1993,7 +2003,7 @@ class Engine:
         return None
 
     # ------------------------------------------------------------------------------------------------------------ helpers of the same module
-    MAX_DEPTH = 4
+    MAX_DEPTH = 7
 
     def _resolve_callable(self, v, nm, st, depth=0):
         """value called -> (function node, arguments already bound, keywords already bound, closure key) or None"""
@@ -2100,7 +2110,9 @@ class Engine:
             if isinstance(owner, tuple) and owner[:1] in (("class",), ("obj",)) and owner[1] in self.classes:
                 m_ = self._method(owner[1], call.func.attr)
                 if m_ is None:
-                    return None
+                    # a function kept in a field of the record (`self._init_func(...)`)
+                    fv = next((v_ for k_, v_ in owner[2] if k_ == call.func.attr), None) if owner[0] == "obj" else None
+                    return self._resolve_callable(fv, None, st) if isinstance(fv, tuple) else None
                 fnode, kind = m_
                 if kind == "property" and not getattr(call, "_c13_getter", False):
                     return None                 # the value of the property is what is called
@@ -2437,6 +2449,8 @@ class Engine:
         if ctor is not None:
             target = (fnode, (("obj", ctor, ()),), target[2], key)          # __init__(self, ...): what it stores in self.* makes the object
         bound, args, kws = self._bind(call, target, st)
+        pre_self = target[1][0] if ctor is None and target[1] and isinstance(target[1][0], tuple) and target[1][0][:1] == ("obj",) \
+            and isinstance(call.func, ast.Attribute) else None
         env = dict(self._closure_env(fnode, key, st))
         env.update(bound)
         sub = State(env, st.facts, st.events, st.loops, st.frames + (st.env,))
@@ -2486,8 +2500,26 @@ class Engine:
                     fl[dd] = dict(fl[dd])
                     fl[dd].update(upd)
                     frames = tuple(fl)
+            changed = None
+            if ctor is None and pre_self is not None and o.status in ("run", "return", "raise"):
+                me = (fnode.args.posonlyargs + fnode.args.args)[0].arg
+                cur = o.env.get(me)
+                if isinstance(cur, tuple) and cur[:1] == ("obj",) and cur != pre_self and cur[1] == pre_self[1]:
+                    changed = cur
+            if changed is not None:
+                # a method that changed its object: the record being a value, what holds it (a name, an attribute path) is rebound
+                rp = dotted(call.func.value) if isinstance(call.func, ast.Attribute) else None
+                if rp is not None and (rp.split(".")[0] in base_env):
+                    base_env = dict(base_env)
+                    self._store_path(base_env, rp, changed)
+                elif not (isinstance(call.func, ast.Attribute) and isinstance(call.func.value, _Val)):
+                    raise Unsupported(f"method {fnode.name} changes an object that no name holds")
             c = State(base_env, o.facts, o.events, st.loops, frames)
             c.pre = dict(st.pre)
+            if changed is not None and rp is not None and (rp.split(".")[0] in base_env):
+                for k_, v_ in changed[2]:
+                    if dict(pre_self[2]).get(k_) != v_:
+                        self.emit(c, "assign", call, name=f"{rp}.{k_}", value=v_)
             val = ("k", None)
             if o.status == "return":
                 rets = [e for e in o.events if e.kind == "return"]
@@ -2498,8 +2530,12 @@ class Engine:
                 c.status = "run"
             if ctor is not None and o.status in ("run", "return"):
                 selfname = (fnode.args.posonlyargs + fnode.args.args)[0].arg
-                val = ("obj", ctor, tuple((k_[len(selfname) + 1:], v_) for k_, v_ in o.env.items()
-                                          if isinstance(k_, str) and k_.startswith(selfname + ".") and "." not in k_[len(selfname) + 1:]))
+                made = o.env.get(selfname)
+                fields = list(made[2]) if isinstance(made, tuple) and made[:1] == ("obj",) else []
+                for k_, v_ in o.env.items():
+                    if isinstance(k_, str) and k_.startswith(selfname + ".") and "." not in k_[len(selfname) + 1:] and k_[len(selfname) + 1:] not in dict(fields):
+                        fields.append((k_[len(selfname) + 1:], v_))
+                val = ("obj", ctor, tuple(fields))
             elif o.status == "raise":
                 c.status = "raise"
             elif o.status in ("continue", "break", "genreturn"):
@@ -2949,17 +2985,22 @@ class Engine:
                 else:
                     nxt.append(s)
             states = nxt
-        # a literal table with integer keys read with a key that is not known: one state per key (the lookup raises KeyError for any other value)
-        for n in reversed([x for x in tables if isinstance(x.ctx, ast.Load) and not isinstance(x.slice, (ast.Tuple, ast.Slice))]):
+        # a literal table with integer keys read with a key that is not known: one state per key (the lookup raises KeyError for any other value;
+        # TABLE.get(key) goes on with the default)
+        gets = [x for root in nodes for x in (ast.walk(root) if isinstance(root, ast.AST) else ())
+                if isinstance(x, ast.Call) and isinstance(x.func, ast.Attribute) and x.func.attr == "get" and 1 <= len(x.args) <= 2 and not x.keywords
+                and not any(isinstance(y, (ast.Call, ast.NamedExpr, ast.Lambda)) for y in ast.walk(x.func.value))]
+        for n in reversed([x for x in tables if isinstance(x.ctx, ast.Load) and not isinstance(x.slice, (ast.Tuple, ast.Slice))] + gets):
             nxt = []
+            is_get = isinstance(n, ast.Call)
             for s in states:
                 try:
-                    b = self.ev(n.value, s)
-                    key = self.ev(n.slice, s) if isinstance(b, tuple) and b[:1] == ("dict",) else None
+                    b = self.ev(n.func.value if is_get else n.value, s)
+                    key = self.ev(n.args[0] if is_get else n.slice, s) if isinstance(b, tuple) and b[:1] == ("dict",) else None
                 except Unsupported:
                     b = key = None
                 if not (isinstance(b, tuple) and b[:1] == ("dict",) and b[1] and isinstance(key, Lin) and not key.is_const() and all(is_int_const(k) for k, _ in b[1])
-                        and len(b[1]) <= 8) or self._in_lookup_try(n):
+                        and len(b[1]) <= 8) or (not is_get and self._in_lookup_try(n)):
                     nxt.append(s)
                     continue
                 miss = s
@@ -2976,8 +3017,9 @@ class Engine:
                         miss.add_fact(t, False)
                         nxt.append(h_)
                 if miss is not None:
-                    self.emit(miss, "raise", n)
-                    miss.status = "raise"
+                    if not is_get:
+                        self.emit(miss, "raise", n)
+                        miss.status = "raise"
                     nxt.append(miss)
             states = nxt
         return states
@@ -3042,6 +3084,9 @@ class Engine:
         if isinstance(target, ast.Name):
             st.env[target.id] = v
             self.emit(st, "assign", node, name=target.id, value=v)
+            if isinstance(v, tuple) and v[:1] == ("obj",) and isinstance(node, ast.Assign) and isinstance(node.value, ast.Call) and v[1] in self.classes:
+                for k_, v_ in v[2]:
+                    self.emit(st, "assign", node, name=f"{target.id}.{k_}", value=v_)          # the fields the constructor gave the record
         elif isinstance(target, (ast.Tuple, ast.List)):
             n = len(target.elts)
             if isinstance(v, tuple) and v[:1] == ("obj",):
@@ -3074,7 +3119,7 @@ class Engine:
         elif isinstance(target, ast.Attribute):
             d = dotted(target)
             if d:
-                st.env[d] = v
+                self._store_path(st.env, d, v)          # a field of a record of a module class, or a plain dotted entry
             self.emit(st, "assign", node, name=d, value=v)
         elif isinstance(target, ast.Starred):
             self.assign(target.value, v, st, node)
@@ -3194,10 +3239,23 @@ class Engine:
     def _assigned(self, body):
         names = set()
         incs = {}
+        direct = set()
+        objmut = {}
+        mm = self._mutating_methods() if self.classes else {}
         for root in body:
             for n in ast.walk(root):
                 if isinstance(n, (ast.FunctionDef, ast.AsyncFunctionDef, ast.Lambda)):
                     continue
+                if isinstance(n, ast.Name) and isinstance(n.ctx, ast.Store):
+                    direct.add(n.id)
+                # records of module classes changed in place: x.method() of a method that rebinds fields, x.field = ..., x.field.append(...)
+                if isinstance(n, ast.Call) and isinstance(n.func, ast.Attribute) and isinstance(n.func.value, ast.Name) and n.func.attr in mm:
+                    objmut.setdefault(n.func.value.id, set()).update(mm[n.func.attr])
+                if isinstance(n, ast.Attribute) and isinstance(n.ctx, (ast.Store, ast.Del)) and isinstance(n.value, ast.Name):
+                    objmut.setdefault(n.value.id, set()).add(n.attr)
+                if isinstance(n, ast.Call) and isinstance(n.func, ast.Attribute) and isinstance(n.func.value, ast.Attribute) and isinstance(n.func.value.value, ast.Name) \
+                        and n.func.attr in ("append", "extend", "insert", "pop", "clear", "remove", "sort", "add", "update"):
+                    objmut.setdefault(n.func.value.value.id, set()).add(n.func.value.attr)
                 if isinstance(n, ast.Name) and isinstance(n.ctx, ast.Store):
                     names.add(n.id)
                 if isinstance(n, ast.Call) and isinstance(n.func, ast.Name) and n.func.id in self.nested:
@@ -3257,7 +3315,93 @@ class Engine:
             if ok and len(signs) == 1:
                 # the sign says which way the counter moves; the magnitude is the step when every update uses the same one (else 1)
                 incs[nm] = (+1 if True in signs else -1) * (next(iter(mags)) if len(mags) == 1 else 1)
+        self._objmut = {nm: at for nm, at in objmut.items() if nm not in direct}
+        names |= set(self._objmut)
         return names, incs
+
+    @staticmethod
+    def _obj_with(obj, attr, val):
+        """the record with one field replaced (or added)"""
+        fields = [(k_, (val if k_ == attr else v_)) for k_, v_ in obj[2]]
+        if not any(k_ == attr for k_, _ in obj[2]):
+            fields.append((attr, val))
+        return ("obj", obj[1], tuple(fields))
+
+    def _store_path(self, env, path, val):
+        """bind the dotted path `x.a.b` to a value: the name itself, the plain dotted entry (attributes of things that are not records are kept that
+        way), or the field of the record the prefix holds - the record being a value, its holder is rebound to the changed record"""
+        parts = path.split(".")
+        if len(parts) == 1:
+            env[path] = val
+            return True
+        head = ".".join(parts[:-1])
+        holder = env.get(head)
+        if holder is None and len(parts) > 2:
+            holder = self._load_path(env, head)
+        if isinstance(holder, tuple) and holder[:1] == ("obj",):
+            return self._store_path(env, head, self._obj_with(holder, parts[-1], val))
+        env[path] = val
+        return True
+
+    def _load_path(self, env, path):
+        parts = path.split(".")
+        cur = env.get(parts[0])
+        for i, a_ in enumerate(parts[1:], 1):
+            d = ".".join(parts[:i + 1])
+            if d in env:
+                cur = env[d]
+                continue
+            if isinstance(cur, tuple) and cur[:1] == ("obj",):
+                cur = next((v_ for k_, v_ in cur[2] if k_ == a_), None)
+            else:
+                return None
+        return cur
+
+    def _mutated_attrs(self, q, meth, seen=None):
+        """the attributes of self a method of class q (own or inherited) may rebind or change in place, those of the methods of self it calls included"""
+        seen = seen if seen is not None else set()
+        m_ = self._method(q, meth)
+        if m_ is None or (q, meth) in seen:
+            return set()
+        seen.add((q, meth))
+        f = m_[0]
+        cached = getattr(f, "_c13_mut", None)
+        if cached is not None:
+            return cached
+        a = f.args.posonlyargs + f.args.args
+        if not a or m_[1] in ("static", "class"):
+            return set()
+        me = a[0].arg
+        out = set()
+        for n in walk_no_nested(f):
+            if isinstance(n, ast.Attribute) and isinstance(n.value, ast.Name) and n.value.id == me:
+                par = getattr(n, "_vparent", None)
+                if isinstance(n.ctx, (ast.Store, ast.Del)):
+                    out.add(n.attr)
+                elif isinstance(par, ast.Attribute) and par.value is n and par.attr in ("append", "extend", "insert", "pop", "clear", "remove", "sort", "add", "update",
+                                                                                       "appendleft", "popleft") \
+                        and isinstance(getattr(par, "_vparent", None), ast.Call) and par._vparent.func is par:
+                    out.add(n.attr)
+                elif isinstance(par, ast.Subscript) and par.value is n and isinstance(par.ctx, (ast.Store, ast.Del)):
+                    out.add(n.attr)
+                elif isinstance(par, ast.Call) and par.func is n:
+                    out |= self._mutated_attrs(q, n.attr, seen)
+        f._c13_mut = out
+        return out
+
+    def _mutating_methods(self):
+        """{method name: attributes it may change} over the classes of the module (a call `x.m()` in a loop body may change x)"""
+        c = self.mod.__dict__.get("_c13_mutmeths")
+        if c is None:
+            c = {}
+            for q in self.classes:
+                for n in self.classes[q].body:
+                    if isinstance(n, ast.FunctionDef) and n.name != "__init__":
+                        at = self._mutated_attrs(q, n.name)
+                        if at:
+                            c.setdefault(n.name, set()).update(at)
+            self.mod.__dict__["_c13_mutmeths"] = c
+        return c
 
     def _nonlocals_of(self, fnode, seen=None):
         """what a call of the nested function may rebind in the enclosing function: its `nonlocal` names and those of the nested functions it calls"""
@@ -3273,9 +3417,19 @@ class Engine:
 
     def _havoc(self, st, names, incs, tag):
         pre = {}
+        om = getattr(self, "_objmut", {})
         for nm in sorted(names):
             old = st.env.get(nm)
             pre[nm] = old
+            if nm in om and isinstance(old, tuple) and old[:1] == ("obj",):
+                # a record changed in place inside the loop: only the fields that can change become unknown
+                new = old
+                for at in sorted(om[nm]):
+                    new = self._obj_with(new, at, ("sym", f"{nm}.{at}@{tag}"))
+                st.env[nm] = new
+                continue
+            if nm in om and not (isinstance(old, tuple) and old[:1] == ("obj",)) and old is None:
+                continue                    # not a local of this frame (an attribute path handled elsewhere)
             new = ("sym", f"{nm}@{tag}")
             st.env[nm] = new
             if nm in incs and _intlike(old):
@@ -3955,6 +4109,19 @@ class Engine:
                 root = d.split(".")[0]
                 if root not in st.env:
                     cc = self._class_const(d) if root not in self.locals else None
+                    if cc is None and root not in self.locals and "." in d:
+                        mo = self.module_const(root)
+                        if isinstance(mo, tuple) and mo[:1] == ("obj",):
+                            # an attribute of a module-level object made by a class of the module
+                            cur = mo
+                            for a_ in d.split(".")[1:]:
+                                nxt = next((v_ for k_, v_ in cur[2] if k_ == a_), None) if isinstance(cur, tuple) and cur[:1] == ("obj",) else None
+                                if nxt is None:
+                                    cur = None
+                                    break
+                                cur = nxt
+                            if cur is not None:
+                                return cur
                     return cc if cc is not None else ("sym", d)
             base = self.ev(node.value, st)
             if isinstance(base, tuple) and base[:1] == ("obj",):
@@ -4156,6 +4323,14 @@ class Engine:
             if any(self._output_like(e) for e in sub.events[n0:]):
                 raise Unsupported("a comprehension whose element writes (evaluated for its effects inside an expression)")
             return ("comp", elt, it, tv, lid)
+        if isinstance(node, ast.DictComp) and all(not g.ifs and not g.is_async for g in node.generators):
+            pairs = ast.copy_location(ast.ListComp(elt=ast.copy_location(ast.Tuple(elts=[node.key, node.value], ctx=ast.Load()), node), generators=node.generators), node)
+            r = self._unroll(pairs, st, limit=16)
+            if r is not None and all(isinstance(x, tuple) and x[:1] == ("tuple",) and len(x[1]) == 2 for x in r[1]):
+                out = {}
+                for x in r[1]:
+                    out[x[1][0]] = x[1][1]              # {k: v for ... in <known items>}: the table it spells (a later item replaces an earlier one)
+                return ("dict", tuple(out.items()))
         if isinstance(node, ast.DictComp) and len(node.generators) == 1 and not node.generators[0].ifs and not node.generators[0].is_async:
             # {k: v for ...}: one store per pass, like `out[k] = v` in a loop
             g = node.generators[0]
@@ -4310,8 +4485,9 @@ class Engine:
             ev0.d["modelled"] = True
             self.emit(st, "call", node, name=None, recv=recv, attr="write", args=[S((("join", "", args[0]),))], kws={}, value=("k", None))
         # a list held by a local: append / extend / insert are followed (inside a loop that is not unrolled the name is a loop symbol, not a list)
-        if attr in ("append", "extend", "insert") and isinstance(node.func.value, ast.Name) and not kws:
-            cur = st.env.get(node.func.value.id)
+        lpath = dotted(node.func.value) if attr in ("append", "extend", "insert") and isinstance(node.func, ast.Attribute) and not kws else None
+        if lpath is not None and (isinstance(node.func.value, ast.Name) or lpath.split(".")[0] in st.env):
+            cur = st.env.get(lpath) if isinstance(node.func.value, ast.Name) else self._load_path(st.env, lpath)
             gen = lambda x: isinstance(x, tuple) and x[:1] == ("star",) and isinstance(x[1], tuple) and x[1][:1] == ("comp",)
             if isinstance(cur, tuple) and cur[:1] == ("tuple",) and not any(isinstance(x, tuple) and x[:1] == ("star",) and not gen(x) for x in cur[1]):
                 new = None
@@ -4323,7 +4499,7 @@ class Engine:
                     new = ("tuple", cur[1] + (("star", args[0]),))          # known items followed by generated ones
                 elif attr == "insert" and len(args) == 2 and is_int_const(args[0]) and 0 <= ival(args[0]) <= len(cur[1]) and not any(gen(x) for x in cur[1]):
                     new = ("tuple", cur[1][:ival(args[0])] + (args[1],) + cur[1][ival(args[0]):])
-                st.env[node.func.value.id] = new if new is not None else ("op", "list-after-" + attr, (cur,) + tuple(args))
+                self._store_path(st.env, lpath, new if new is not None else ("op", "list-after-" + attr, (cur,) + tuple(args)))
         return res
 
     def _strbuf_call(self, node, st, name, attr):
@@ -4370,6 +4546,19 @@ class Engine:
 
     def _call_value(self, node, st, name, recv, attr, args, kws):
         nargs = len(args)
+        if attr == "get" and 1 <= nargs <= 2 and not kws and isinstance(node.func, ast.Attribute):
+            tb = recv if recv is not None else (self.ev(node.func.value, st) if name is not None else None)
+            if isinstance(tb, tuple) and tb[:1] == ("dict",):
+                # TABLE.get(key[, default]) on a literal table: the entry, or the default when the key is none of the table's
+                found = self._lookup(tb, args[0], st)
+                if not (isinstance(found, tuple) and found[:1] == ("elem",) and found[1] is tb):
+                    return found
+                keyv = found[2]
+                if all(isinstance(k_, Lin) for k_, _ in tb[1]) and isinstance(keyv, Lin) and \
+                        all(self.decide(("cmp", "Eq") + tuple(sorted((k_, keyv), key=repr)), st) is False for k_, _ in tb[1]):
+                    return args[1] if nargs == 2 else ("k", None)
+                if all(isinstance(k_, S) and k_.text() is not None for k_, _ in tb[1]) and isinstance(keyv, S) and keyv.text() is not None:
+                    return args[1] if nargs == 2 else ("k", None)
         if attr in ("get", "setdefault") and isinstance(node.func, ast.Attribute) and self._memo_name(node.func.value) is not None and 1 <= nargs <= 2 and not kws:
             mname = self._memo_name(node.func.value)
             got = self._memo_read(mname, args[0], st)
